@@ -22,17 +22,20 @@ X_RANGES = [1.0, 2.5, 0.3]  # domain length along x (dx = x_range / nx is not 1 
 FILTERS = [None] + [[t, o] for t in ("multiplicative", "convolution") for o in (1, 2, 3)]
 
 
-def case_step(cfg, state, velocity, forcing, steps, seed, backend="interp"):
+ARG_TYPES = ["python", "numpy64", "real_t", "sequence"]  # how dt and the free stream are handed to time_step
+
+
+def case_step(cfg, state, velocity, forcing, steps, seed, backend="interp", arg_types="python"):
     from harness import shim
 
     shim.set_backend(backend)
     try:
-        return _case_step(cfg, state, velocity, forcing, steps, seed, backend)
+        return _case_step(cfg, state, velocity, forcing, steps, seed, backend, arg_types)
     finally:
         shim.set_backend("interp")
 
 
-def _case_step(cfg, state, velocity, forcing, steps, seed, backend):
+def _case_step(cfg, state, velocity, forcing, steps, seed, backend, arg_types="python"):
     c = simcfg.normalise(cfg)
     kind = c["kind"]
     d = simcfg.dim_of(kind)
@@ -89,12 +92,24 @@ def _case_step(cfg, state, velocity, forcing, steps, seed, backend):
         u0 = vel_h.astype(np.float64).copy()
         f0 = forc_h.astype(np.float64).copy() if forc_h is not None else None
         fs = simcfg.free_stream(c, seed + step) if c["stream"] else None  # c["stream_kind"] selects the alphabet member
-        kw = {"free_stream_velocity": fs} if fs is not None else {}
-        sim.time_step(dt=dt, **kw)
+        # the TYPE of the objects handed over is part of the input: Python float / list, numpy double, numpy scalar and
+        # array of the working precision; what counts is the value they carry
+        dt_obj, fs_obj = dt, fs
+        if arg_types == "numpy64":
+            dt_obj, fs_obj = np.float64(dt), (None if fs is None else np.asarray(fs, dtype=np.float64))
+        elif arg_types == "real_t":
+            dt_obj, fs_obj = real_t(dt), (None if fs is None else np.asarray(fs, dtype=real_t))
+        elif arg_types == "sequence":
+            dt_obj, fs_obj = float(dt), (None if fs is None else [float(v) for v in fs])
+        dt = float(dt_obj)
+        if fs is not None:
+            fs = np.asarray(fs_obj, dtype=np.float64)
+        kw = {"free_stream_velocity": fs_obj} if fs is not None else {}
+        sim.time_step(dt=dt_obj, **kw)
         t_expected += dt
         if float(sim.time) != t_expected:
             fails.append(Fail(f"{tag}:clock", "simulator time did not advance by exactly dt", got=float(sim.time), want=t_expected))
-        ctx = dict(cfg=c, state=state, velocity=velocity, forcing=forcing, step=step)
+        ctx = dict(cfg=c, state=state, velocity=velocity, forcing=forcing, step=step, arg_types=arg_types)
         if simcfg.is_ns(kind):
             ref = flowstep.ns_step(kind, w0, u0, f0, dt, nu, rho, dx, c["width"], fs, filt=c["filter"], poisson=c["poisson"])
             got_w = prim.astype(np.float64)
@@ -175,14 +190,14 @@ def lattice_cases(tier, seed):
     out = []
     dev = {"quick": 2, "dev1": 1}.get(tier, 3)
     pat = {"state": simcfg.STATE_PATTERNS, "velocity": simcfg.VELOCITY_PATTERNS}
-    ns_common = {"dtype": ["float64", "float32"], "forcing": [True, False], "stream": [True, False], "stream_kind": simcfg.STREAM_KINDS, "width": [2, 0, 1, 3, 4], "params": PARAMS, "x_range": X_RANGES, "time0": [0.0, 3.7],
+    ns_common = {"dtype": ["float64", "float32"], "forcing": [True, False], "stream": [True, False], "stream_kind": simcfg.STREAM_KINDS, "width": [2, 0, 1, 3, 4], "params": PARAMS, "x_range": X_RANGES, "time0": [0.0, 3.7], "arg_types": ARG_TYPES,
                  "steps": [1, 2, "2:single", "2:zero"], **pat, "forcing_pat": simcfg.FORCING_PATTERNS}
     kinds = {
         "ns2d": {**ns_common, "shape": SHAPES[2]},
         "ns3d": {**ns_common, "shape": SHAPES[3], "filter": FILTERS + ["default"], "poisson": ["greens", "fastdiag"]},
-        "pt2d": {"dtype": ["float64", "float32"], "params": PARAMS, "x_range": X_RANGES, "time0": [0.0, 3.7], "steps": [1, 2, "2:single", "2:zero"], **pat, "shape": SHAPES[2]},
-        "pt3ds": {"dtype": ["float64", "float32"], "params": PARAMS, "x_range": X_RANGES, "time0": [0.0, 3.7], "steps": [1, 2, "2:single", "2:zero"], **pat, "shape": SHAPES[3]},
-        "pt3dv": {"dtype": ["float64", "float32"], "params": PARAMS, "x_range": X_RANGES, "time0": [0.0, 3.7], "steps": [1, 2, "2:single", "2:zero"], **pat, "shape": SHAPES[3]},
+        "pt2d": {"dtype": ["float64", "float32"], "params": PARAMS, "x_range": X_RANGES, "time0": [0.0, 3.7], "arg_types": ARG_TYPES[:3], "steps": [1, 2, "2:single", "2:zero"], **pat, "shape": SHAPES[2]},
+        "pt3ds": {"dtype": ["float64", "float32"], "params": PARAMS, "x_range": X_RANGES, "time0": [0.0, 3.7], "arg_types": ARG_TYPES[:3], "steps": [1, 2, "2:single", "2:zero"], **pat, "shape": SHAPES[3]},
+        "pt3dv": {"dtype": ["float64", "float32"], "params": PARAMS, "x_range": X_RANGES, "time0": [0.0, 3.7], "arg_types": ARG_TYPES[:3], "steps": [1, 2, "2:single", "2:zero"], **pat, "shape": SHAPES[3]},
     }
     for kind, axes in kinds.items():
         for pt in explore.lattice(axes, dev):
@@ -190,7 +205,7 @@ def lattice_cases(tier, seed):
             for k in ("forcing", "stream", "stream_kind", "width", "filter", "poisson", "x_range", "time0"):
                 if k in pt:
                     cfg[k] = pt[k]
-            out.append(dict(cfg=cfg, state=pt["state"], velocity=pt["velocity"], forcing=pt.get("forcing_pat", "none"), steps=pt["steps"], seed=seed))
+            out.append(dict(cfg=cfg, state=pt["state"], velocity=pt["velocity"], forcing=pt.get("forcing_pat", "none"), steps=pt["steps"], seed=seed, arg_types=pt.get("arg_types", "python")))
     # forcing + stream + filter together (the interesting 3-way interaction) for every filter and solver
     for filt in (FILTERS[1:] if tier != "dev1" else []):
         for ps_ in ("greens", "fastdiag"):
@@ -227,7 +242,7 @@ def run(r) -> None:
         jit_cases = [dict(c, backend="jit") for c in lattice_cases_dev1(r.seed)]
         r.run_cases("step-lattice-jit", "step", jit_cases, chunksize=6)
         r.extra["jit_traces"] = len(jit_cases)
-    r.bounds = {"deviation": 2 if r.tier == "quick" else 3, "cases": len(cases), "shapes": SHAPES, "params": PARAMS, "filters": FILTERS + ["filter_vorticity=True without a settings dictionary"], "x_ranges": X_RANGES, "initial_time": [0.0, 3.7],
+    r.bounds = {"deviation": 2 if r.tier == "quick" else 3, "cases": len(cases), "shapes": SHAPES, "params": PARAMS, "filters": FILTERS + ["filter_vorticity=True without a settings dictionary"], "x_ranges": X_RANGES, "initial_time": [0.0, 3.7], "argument_types": ARG_TYPES,
                 "widths": [0, 1, 2, 3, 4], "state_patterns": simcfg.STATE_PATTERNS, "velocity_patterns": simcfg.VELOCITY_PATTERNS, "forcing_patterns": simcfg.FORCING_PATTERNS, "steps": [1, 2, "2 with the second step re-loaded with a single non-zero component", "2 with the second step from the all-zero field"]}
     r.extra["rule"] = "one state per executed time step of each (configuration, pattern, history length) tuple of the deviation-bounded lattice; every step compared cell by cell with the independent reference"
     r.assumptions = ["small-scope: field values from finite pattern alphabets on grids of ~12 cells a side", "kernels on the interpreter back end, bound to the generated code by conformance replay",
